@@ -1786,6 +1786,68 @@ async fn run_sliding_scenario(mode: CacheMode, via: Via, class: EpClass, uniq: u
     Ok(CacheObs { steps, proj_g0, proj_g1 })
 }
 
+/// Outage-after-expiry history: a good answer is fetched and cached; then EVERY endpoint starts failing transiently
+/// (503 / connection closed without data; refused ones stay refused); a query more than 3 TTLs later has no
+/// well-formed answer to return from any protocol and nothing unexpired in the cache, so it must fail — in
+/// particular it must not hand out the expired answer again.
+async fn run_outage_scenario(mode: CacheMode, via: Via, class: EpClass, uniq: u64) -> Result<CacheObs, String> {
+    let (https, http, tcp) = match via {
+        Via::Https => (HttpBeh::Valid(Shape::Plain), HttpBeh::Valid(Shape::Plain), TcpBeh::ValidV2(Shape::Plain)),
+        Via::HttpAfter503 => (HttpBeh::Status(503, None), HttpBeh::Valid(Shape::InteriorBlank), TcpBeh::ValidV2(Shape::Plain)),
+        Via::TcpV1AfterRefused => (HttpBeh::Refused, HttpBeh::Refused, TcpBeh::ValidV1(true, Shape::Plain)),
+        Via::TcpV2 => (HttpBeh::Refused, HttpBeh::Refused, TcpBeh::ValidV2(Shape::Plain)),
+    };
+    let sc = Scenario { class, https, http, tcp, splits: vec![], uniq, disk: mode != CacheMode::Memory, rows: 3, opt: Opt::default() };
+    let dir = if sc.disk { Some(tempfile::tempdir().map_err(|e| format!("harness: tempdir: {e}"))?) } else { None };
+    let rig = build_rig(&sc, TTL, dir.as_ref().map(|d| d.path().to_path_buf())).await?;
+    let answering = if class.tcp_only() {
+        Slot::Tcp
+    } else {
+        match via {
+            Via::Https => Slot::Https,
+            Via::HttpAfter503 => Slot::Http,
+            _ => Slot::Tcp,
+        }
+    };
+    let p0 = match answering {
+        Slot::Https => ref_http(&http_body(&sc.https, class, Slot::Https, uniq, 0, sc.rows)),
+        Slot::Http => ref_http(&http_body(&sc.http, class, Slot::Http, uniq, 0, sc.rows)),
+        Slot::Tcp => ref_tcp(&tcp_payload(&sc.tcp, class, uniq, 0, sc.rows)),
+    };
+    let proj_g0 = p0.ok_or("harness: generation 0 does not parse")?;
+    let ep = class.endpoint();
+    let mut steps: Vec<CacheStep> = Vec::new();
+    let c1 = new_client(&rig.cfg)?;
+    let before = rig.log.len();
+    let r0 = do_query(&c1, ep).await;
+    let t0e = Instant::now();
+    steps.push(CacheStep { name: "cold-query", client: "same-client", phase: "cold", result: r0, new_requests: rig.log.len() - before, want_generation: 0 });
+    // the outage begins: every endpoint that is listening now fails transiently
+    {
+        let mut h = rig.https_script.lock().map_err(|_| "lock")?;
+        if h.beh != HttpBeh::Refused {
+            h.beh = HttpBeh::Status(503, None);
+        }
+        let mut h = rig.http_script.lock().map_err(|_| "lock")?;
+        if h.beh != HttpBeh::Refused {
+            h.beh = if uniq % 2 == 0 { HttpBeh::Status(503, None) } else { HttpBeh::CloseBeforeHeaders };
+        }
+        let mut t = rig.tcp_script.lock().map_err(|_| "lock")?;
+        t.beh = TcpBeh::CloseMid;
+        t.payload = Vec::new();
+    }
+    tokio::time::sleep(TTL * 3 + Duration::from_millis(50)).await;
+    if Instant::now().duration_since(t0e) < TTL * 3 {
+        return Err("harness: sleep returned early".into());
+    }
+    let before = rig.log.len();
+    let r = do_query(&c1, ep).await;
+    steps.push(CacheStep { name: "query-after-expiry-during-an-outage-of-every-endpoint", client: "same-client", phase: "after-outage", result: r, new_requests: rig.log.len() - before, want_generation: 0 });
+    drop(c1);
+    drop(rig);
+    Ok(CacheObs { steps, proj_g0: proj_g0.clone(), proj_g1: proj_g0 })
+}
+
 /// returns true when every step could be judged
 fn judge_cache(ctx: &Ctx, mode: CacheMode, via: Via, class: EpClass, obs: &CacheObs) -> bool {
     let mut all_judged = true;
@@ -1825,6 +1887,15 @@ fn judge_cache(ctx: &Ctx, mode: CacheMode, via: Via, class: EpClass, obs: &Cache
                     ctx.violation(&format!("C13|cache|answer-served-after-ttl-ended|{m}|{}", s.client), "an answer was served from the cache (no network traffic) more than 3 TTLs after it was stored", detail(s));
                 } else if s.result != QR::Ok(want.clone()) {
                     ctx.violation(&format!("C13|cache|query-after-expiry-did-not-return-the-fresh-answer|{m}|{}", s.client), "after expiry the query did not return the answer now served", detail(s));
+                }
+            }
+            "after-outage" => {
+                ctx.obs(&format!("cache.judged.after-expiry-during-outage.{m}"), 1);
+                ctx.obs(&format!("cache.outage.result.{}", match &s.result { QR::Ok(_) => "ok", QR::Err(_) => "err", QR::Panic(_) => "panic" }), 1);
+                if s.result == QR::Ok(obs.proj_g0.clone()) {
+                    ctx.violation(&format!("C13|cache|answer-served-after-ttl-ended|{m}|{}|while-every-endpoint-fails", s.client), "more than 3 TTLs after it was stored, and while every endpoint failed transiently, the expired answer was returned as a success", detail(s));
+                } else if let QR::Ok(_) = &s.result {
+                    ctx.violation(&format!("C13|fallback|success-although-every-permitted-protocol-failed|{m}"), "the query succeeded although no endpoint gave a well-formed answer and nothing unexpired was cached", detail(s));
                 }
             }
             "after-hit" => {
@@ -2194,6 +2265,36 @@ fn main() {
                 }
             }
             pending = again;
+        }
+    }
+
+    // ---- outage-after-expiry histories (an expired answer must not come back when every endpoint fails)
+    {
+        let cases: Vec<(CacheMode, Via, EpClass)> = vec![
+            (CacheMode::Memory, Via::Https, EpClass::Versions),
+            (CacheMode::Memory, Via::TcpV2, EpClass::Summary),
+            (CacheMode::DiskSameClient, Via::HttpAfter503, EpClass::Cdns),
+            (CacheMode::DiskSameClient, Via::TcpV1AfterRefused, EpClass::Bgdl),
+        ];
+        let handles: Vec<_> = cases
+            .iter()
+            .map(|&(mode, via, class)| {
+                uniq += 1;
+                let u = uniq;
+                rt.spawn(async move { (mode, via, class, tokio::time::timeout(Duration::from_secs(120), run_outage_scenario(mode, via, class, u)).await) })
+            })
+            .collect();
+        for h in handles {
+            match rt.block_on(h) {
+                Ok((mode, via, class, Ok(Ok(obs)))) => {
+                    ctx.eval_nontrivial(mix64(fnv64(b"cache-outage"), fnv64(format!("{mode:?}{via:?}{class:?}").as_bytes())));
+                    ctx.obs(&format!("cache.outage_histories.{}", mode.name()), 1);
+                    judge_cache(&ctx, mode, via, class, &obs);
+                }
+                Ok((_, _, _, Ok(Err(e)))) => ctx.inconclusive(&format!("outage history: {e}")),
+                Ok((_, _, _, Err(_))) => ctx.inconclusive("outage history: watchdog (120 s)"),
+                Err(_) => ctx.inconclusive("outage history task failed"),
+            }
         }
     }
 
